@@ -12,7 +12,7 @@ from props import msagen as G
 ROUNDTRIP_PROVED = ["afa", "phylip", "phylips", "clustal", "clustallike", "psiblast", "a2m (consensus and insert columns, reader padding)", "selex (with #=RF/#=CS/#=MM/#=SS/#=SA)",
                     "pfam and stockholm multi-block (names, rows, parsed and unparsed #=GC, comments, #=GF incl. unparsed tags and cut-off flags, #=GR incl. unparsed tags under grOrderOk, #=GS WT/AC/DE/unparsed tags under gsOrderOk: stockholm_roundtrip_full)"]
 ROUNDTRIP_NOT_PROVED = ["round-trip THEOREM missing (executable writer + reader models compared with the library, monitors only): stockholm/pfam multi-line #=GS values; "
-                        "numeric value of weights / cut-offs", "autodetection of SELEX / PSI-BLAST / PHYLIP output (monitors only)"]
+                        "numeric value of weights / cut-offs", "autodetection of SELEX / PSI-BLAST output (msafile_check_selex over the whole file: executable model + monitor only); PHYLIP without a suffix = the deep check's verdict (theorem), its exception set not in closed form"]
 MODELLED = ["afa", "a2m", "psiblast", "clustal", "clustallike", "phylip", "phylips", "selex", "stockholm", "pfam"]      # writer + reader models, bytes and re-read alignment compared
 WRITER_ONLY = []
 ALL_FORMATS = G.FORMATS
@@ -97,10 +97,11 @@ READ_DOMAIN_LEMMAS = ('a2mRead_nd', 'a2mRead_domain_text', 'a2mRead_domain_digit
 
 
 ROUND6_THEOREMS = ('weight_token_wellformed', 'weight_token_value', 'cutoff_token_wellformed', 'cutoff_token_value', 'printed_value_exact',
-                   'printed_value_half_unit', 'weight_token_roundtrip', 'stockholm_seq_order_perm', 'stockholm_gr_order_perm', 'stockholm_seq_order_id',
-                   'stockholm_roundtrip_mention_partial')
+                   'printed_value_half_unit', 'weight_token_roundtrip', 'stockholm_seq_order_perm', 'stockholm_gr_order_perm', 'stockholm_seq_order_id', 'stockholm_gr_order_id',
+                   'stockholm_roundtrip_mention_partial', 'phylip_header_recognised', 'phylip_autodetect', 'phylip_autodetect_suffix')
 ROUND6_LEMMAS = ('fmtFixed_read', 'fmtFixed_eq', 'wt_line_tokens', 'digitsVal_natDec', 'natDec_length_le', 'decTok_shape', 'fmtF2_fixed', 'fmtF1_fixed',
-                 'stoGsReg_cases', 'regRest_perm', 'regNew_ok', 'permList_id')
+                 'stoGsReg_cases', 'regRest_perm', 'regNew_ok', 'permList_id', 'guess_phylipWrite', 'phyHeader_first', 'memstrcontains_words',
+                 'stoMention_project', 'stoMentionRoundTrip_of_writable', 'stoGrOrder_id_of_grOrderOk', 'regNew_range', 'filter_downclosed', 'stoProject_congr')
 
 
 class C03(Prop):
@@ -151,13 +152,29 @@ class C03(Prop):
                   "`afaHdrOkB`), for Clustal under `cluNamesNeB` (no empty name) and the not-a-consensus-line condition, for "
                   "PHYLIP (both variants; names come back <= 10 graphic characters, nseq/alen <= 2^31-1 proved from esl_mem_strtoi32) under `phyNamesNeB` and, text mode, "
                   "`phyRowsSymB` (the writer upper-cases), for PSI-BLAST partially (no lower-case residue); each side condition is shown necessary by a proved counter-example on the model (listed in DESIGN / the report). "
+                  "ROUND 6: (a) WEIGHT / CUT-OFF TOKENS for EVERY finite binary64 / binary32 value, negative, zero and subnormal included: the token is [-]d..d.dd / [-]d..d.d with exactly "
+                  "two / one fraction digits, one blank-free token esl_mem_IsReal accepts (`weight_token_wellformed`, `cutoff_token_wellformed`); read by an independent decimal parser it has the "
+                  "sign bit of the value and denotes `fixedQ mant e prec` units of 10^-prec (`weight_token_value`, `cutoff_token_value`), which is the value scaled by 10^prec exactly for e >= 0 "
+                  "and within HALF a unit of the last printed decimal otherwise (`printed_value_exact`, `printed_value_half_unit`); the reader's three esl_memtok calls take the written line "
+                  "'#=GS <name> WT <token>' apart into exactly '#=GS', the name, 'WT' and the printed bytes (`weight_token_roundtrip`). (b) FIRST-MENTION ORDER as a specification: `stoSeqOrder` / "
+                  "`stoGrOrder` = the order in which the Stockholm reader numbers sequences / unparsed #=GR tags of write m; permutations for EVERY alignment (`stockholm_seq_order_perm`, "
+                  "`stockholm_gr_order_perm`); identity under gsOrderOk / grOrderOk (`stockholm_seq_order_id`, `stockholm_gr_order_id`), where stoMention m projects to m: the full statement "
+                  "`StoMentionRoundTrip`: read(write m) = ok(stoProject(stoMention m)) holds wherever the proved round trip does (`stockholm_roundtrip_mention_partial`) and at the "
+                  "witnesses of the known finding (decide); NOT proved for every alignment without the order hypotheses; the monitor demands exactly that permutation of the real library on every generated case, inside the finding's region too. "
+                  "(c) PHYLIP AUTODETECTION: ' <nseq> <alen>' is recognised as a PHYLIP header for all numbers; with a .ph/.phy/.phyi/.phys suffix guess(write m) = the suffix's format for every "
+                  "alignment, without one it is EXACTLY esl_msafile_phylip_CheckFileFormat's verdict on the output (`phylip_autodetect`, `phylip_autodetect_suffix`; exception set = where that "
+                  "heuristic does not answer the format written, members proved by decide). (d) AFA text mode no longer accepts '>' as a residue (fix 2f545f8): `afa_reformat_stable_text` lost its "
+                  "`afaNoGtB` hypothesis. "
                   "NOT PROVED (monitors + executable models only): Stockholm/Pfam multi-line #=GS values and optional arrays with no entry set; A2M with separate "
-                  "accessions; reformat stability for SELEX, Stockholm; numeric VALUE of weights and cut-offs (the reader model keeps set/unset); autodetection of SELEX/PSI-BLAST/PHYLIP output.")
+                  "accessions; reformat stability for SELEX, Stockholm; the double VALUE strtod gives a weight / cut-off token (C01 models token -> double); the round trip up to the "
+                  "first-mention permutation in general; autodetection of SELEX/PSI-BLAST output and a closed form of PHYLIP's ambiguous set.")
     level_note = ("Lean models of ALL ten writers (incl. stockholm_write with margins, wrapping, unique-name forcing and exact printf %.2f/%.1f; PHYLIP with ESL_MSAFILE_FMTDATA namewidth/rpl) "
                   "and ten readers are compared byte for byte / field for field with the library on every case. printf/strtod of 2-/1-decimal weights and cut-offs is trusted "
                   "(cutoff_token_accepted proves that %.1f of any finite float is a token the cut-off parser accepts). Known finding C03:stockholm:first-mention-order: the Stockholm reader numbers "
-                  "sequences and #=GR tags in order of first mention (#=GS lines included), so partial per-sequence annotation changes sequence order on re-reading; the generator keeps the "
-                  "first #=GS kind total and gives the first sequence every #=GR tag. PHYLIP autodetection of single-sequence or single-block output is documented as ambiguous; with a "
+                  "sequences and #=GR tags in order of first mention (#=GS lines included), so partial per-sequence annotation changes sequence order on re-reading; the main generator keeps the "
+                  "first #=GS kind total and gives the first sequence every #=GR tag, a dedicated 'mention' stream goes INTO that region and demands exactly the first-mention permutation "
+                  "(python mirror of Msafile/StoFirstMention.lean) of the library's re-read alignment; a boundary GRID (16/17/32/33/64/65 sequences x 200/201/400/401 resp. 60/61/120/121 columns x "
+                  "sparse annotation, PHYLIP names of width exactly 10/11) is run for every format. PHYLIP autodetection of single-sequence or single-block output is documented as ambiguous; with a "
                   "nonstandard name width autodetection is heuristic and only monitored for crash-freedom.")
     diverge_is_violation = False
     quick_budget_s = 75
